@@ -37,6 +37,23 @@ type vRetEvent struct {
 type vRetMeta struct {
 	mu   sync.Mutex
 	data *meta.Data
+	// want is the duration REQUESTED for each policy ("db.rp") by the last accepted create / alter; the
+	// oracle judges expiry by it, not by what the metadata happens to store
+	want map[string]time.Duration
+}
+
+// view returns a copy of d in which every policy carries its requested duration (the oracle's reading).
+func (m *vRetMeta) view(d *meta.Data) *meta.Data {
+	n := d.Clone()
+	for i := range n.Databases {
+		for j := range n.Databases[i].RetentionPolicies {
+			rp := &n.Databases[i].RetentionPolicies[j]
+			if w, ok := m.want[n.Databases[i].Name+"."+rp.Name]; ok {
+				rp.Duration = w
+			}
+		}
+	}
+	return n
 }
 
 func (m *vRetMeta) get() *meta.Data {
